@@ -8,7 +8,8 @@
 (*                                                                                                *)
 (*   layer "frame" : msgio length prefix x compression tag x declared length x envelope           *)
 (*   layer "raw"   : compression x message code (every code of handle(), the handshake, unknown   *)
-(*                   codes) x raw payload class (empty / garbage / truncated / padded / confused) *)
+(*                   codes) x raw payload class (empty / garbage / truncated / padded / confused  *)
+(*                   / mutated)                                                                   *)
 (*   layer "msg"   : per message code, the presence lattice of its optional parts and the classes *)
 (*                   of its counts, lengths, signatures, rounds                                   *)
 (*   layer "tx"    : 23 transaction types (+ an unknown one) x recipient presence/role x payload  *)
@@ -99,7 +100,9 @@ FrameExpect(c) ==
 
 ---------------------------------------------------------------------------
 (* layer "raw": any code with an unstructured payload *)
-Raws == {"empty", "garbage", "trunc", "padded", "confused"}
+\* empty / random bytes / a well-formed payload cut short / padded with a large unknown field / the payload of
+\* another code / a well-formed payload with a few bytes flipped, dropped, repeated or length fields changed
+Raws == {"empty", "garbage", "trunc", "padded", "confused", "mutated"}
 RawCases == [layer : {"raw"}, comp : {"none", "s2"}, code : Codes, raw : Raws, state : States]
 
 RawExpect(c) ==
@@ -112,7 +115,8 @@ RawExpect(c) ==
 \* --- deviations of an otherwise well-formed proposed block (shared with layer "block") ---
 Devs == {<<"flags", "offcommit">>, <<"flags", "offpropose">>, <<"flags", "idupdate">>, <<"flags", "newgenesis">>,
          <<"flags", "snapshot">>, <<"flags", "allbits">>,
-         <<"offaddr", "set">>,
+         <<"flags", "offcommit_addr">>, <<"flags", "offpropose_addr">>,   \* the flag together with an offline address
+         <<"offaddr", "set">>,                                            \* an offline address without any flag
          <<"pubkey", "empty">>, <<"pubkey", "garbage">>, <<"pubkey", "stranger">>,
          <<"seedproof", "empty">>, <<"seedproof", "garbage">>,
          <<"seed", "wrong">>,
